@@ -18,7 +18,7 @@ set in an if/elif chain and tested once afterwards, or inside a private helper. 
   * `event(expr, state, walker) -> flags` lets a rule mark paths ("the lookup was evaluated", "a diagnostic was recorded").
 
 The result is the list of path ends (`Outcome`): explicit returns with the abstract value returned, falling off the end, raises,
-uncaught scenario exceptions, and the ends of loop iterations - each with the flags and the environment of the path.  Nothing of the
+uncaught scenario exceptions, and the ends of loop iterations (fall-through / continue, and break) - each with the flags and the environment of the path.  Nothing of the
 analysed program is executed; values are never concrete except for literals written in the source.  The walk over-approximates
 feasibility (unknown tests go both ways), so "no path end with property P" is a sound verdict and "some path end lacks Q" may be a
 false alarm only where a test is undecidable for the abstraction.
@@ -46,6 +46,15 @@ class V:
     err: "bool | None" = None               # an instance of one of the repository's error classes
     const: "tuple | None" = None            # (value,) of a literal
     elts: "tuple[V, ...] | None" = None     # elements of a tuple / list literal
+    tag: "str | None" = None                # a label an axiom attached to the value (provenance); copied with the value, dropped by None
+    item: "V | None" = None                 # an iterable built by a comprehension: what is known about each of its elements
+    iflags: "frozenset[str]" = frozenset()  # a lazy iterable (generator expression): the events of producing one element
+
+    def tags(self) -> "set[str]":
+        out = {self.tag} if self.tag is not None else set()
+        for x in [*(self.elts or ()), *([self.item] if self.item is not None else [])]:
+            out |= x.tags()
+        return out
 
     def is_error(self) -> bool:
         """an error value, or a tuple that carries one (the parser's `return <Error>, schemas` convention)"""
@@ -72,7 +81,8 @@ def join(a: V, b: V) -> V:
     if a.elts is not None and b.elts is not None and len(a.elts) == len(b.elts):
         elts = tuple(join(x, y) for x, y in zip(a.elts, b.elts))
     return V(a.truthy if a.truthy == b.truthy else None, a.none if a.none == b.none else None, a.err if a.err == b.err else None,
-             a.const if a.const == b.const else None, elts)
+             a.const if a.const == b.const else None, elts, a.tag if a.tag == b.tag else None,
+             join(a.item, b.item) if a.item is not None and b.item is not None else None, a.iflags | b.iflags)
 
 
 def meet(a: V, b: V) -> "V | None":
@@ -89,7 +99,7 @@ def meet(a: V, b: V) -> "V | None":
         return NONE
     if a.const is not None and b.const is not None and a.const != b.const:
         return None
-    return V(out["truthy"], out["none"], out["err"], a.const or b.const, a.elts or b.elts)
+    return V(out["truthy"], out["none"], out["err"], a.const or b.const, a.elts or b.elts, a.tag or b.tag, a.item or b.item, a.iflags | b.iflags)
 
 
 class St:
@@ -123,7 +133,7 @@ class St:
 
 @dataclasses.dataclass
 class Outcome:
-    kind: str            # return | end | raise | uncaught | iter-end
+    kind: str            # return | end | raise | uncaught | iter-end | break (the last two: node is the loop; the path goes on)
     node: ast.AST        # the return / raise statement, the function (end), the raising expression, the loop
     value: V             # value returned (return / end); for raise / uncaught: UNKNOWN
     st: St
@@ -132,6 +142,11 @@ class Outcome:
     @property
     def flags(self) -> "frozenset[str]":
         return self.st.flags
+
+    @property
+    def final(self) -> bool:
+        """the path leaves the function here (the ends of loop iterations are reported, too, but the path goes on)"""
+        return self.kind not in ("iter-end", "break")
 
 
 class _Raise(Exception):
@@ -147,7 +162,8 @@ class _TryFrame:
 
 
 class _LoopFrame:
-    def __init__(self) -> None:
+    def __init__(self, node: ast.AST) -> None:
+        self.node = node
         self.breaks: list[St] = []
         self.continues: list[St] = []
 
@@ -355,7 +371,28 @@ class Walker:
         if isinstance(e, ast.Attribute):
             self.ev(e.value, st)
             return UNKNOWN
-        if isinstance(e, (ast.ListComp, ast.SetComp, ast.DictComp, ast.GeneratorExp, ast.Lambda)):
+        if isinstance(e, (ast.ListComp, ast.SetComp, ast.GeneratorExp)):
+            # the element, evaluated once with the targets bound to what is known about the iterables' elements and the filters passed
+            # (its events may happen; its scope is its own, except that walrus targets are the enclosing function's)
+            inner: "St | None" = st.copy()
+            for gen in e.generators:
+                it = self.ev(gen.iter, inner)
+                self.bind(gen.target, it.item if it.item is not None else UNKNOWN, inner)
+                for cond in gen.ifs:
+                    self.ev(cond, inner)
+                    inner = self.refine(cond, True, inner) if inner is not None else None
+                    if inner is None:
+                        break
+                if inner is None:
+                    break
+            if inner is None:
+                return V(truthy=False, none=False, err=False)       # nothing passes the filters
+            elt = self.ev(e.elt, inner)
+            if isinstance(e, ast.GeneratorExp):
+                return V(None, False, False, item=elt, iflags=inner.flags - st.flags)     # nothing happens until it is consumed
+            st.flags = inner.flags
+            return V(None, False, False, item=elt)
+        if isinstance(e, (ast.DictComp, ast.Lambda)):
             for ch in ast.iter_child_nodes(e):
                 self._touch(ch, st)
             return OBJECT
@@ -422,6 +459,19 @@ class Walker:
             return V(x.truthy if x.none is False else None, False, False)
         if plain and last == "cast" and len(args) == 2 and simple:
             return args[1]
+        if plain and last in ("iter", "reversed") and len(args) == 1 and simple and args[0].item is not None:
+            return V(args[0].truthy, False, False, item=args[0].item, iflags=args[0].iflags)
+        if plain and last in ("list", "tuple", "sorted", "set", "frozenset") and len(args) == 1 and simple and args[0].item is not None:
+            st.flag(*args[0].iflags)
+            return V(args[0].truthy, False, False, item=args[0].item)
+        if plain and last == "next" and len(args) in (1, 2) and simple and args[0].item is not None:
+            # the first element, or the default when there is none (without a default: StopIteration)
+            if self.choose(2) == 0:
+                st.flag(*args[0].iflags)
+                return args[0].item
+            if len(args) == 2:
+                return args[1]
+            raise _Raise("StopIteration", c, False)
         if last in ERROR_CLASSES or last in ERROR_ONLY_HELPERS:
             return ERROR
         g = self.inline.get(last)
@@ -464,7 +514,7 @@ class Walker:
         outs: list[Outcome] = self._cache[key]
         alts: list[tuple[str, V, frozenset, str, ast.AST]] = []
         for o in outs:
-            if o.kind == "iter-end":
+            if not o.final:
                 # the end of an iteration of a helper's loop is a path end of the caller's walk, too
                 self.outcomes.append(o)
                 continue
@@ -635,38 +685,43 @@ class Walker:
                 if isinstance(r, _Raise):
                     self._route(r, s2)
                     continue
-                head = s2.copy().kill(_stores(st))
-                self.bind(st.target, UNKNOWN, head)
-                lf = _LoopFrame()
-                self._loops.append(lf)
-                try:
-                    falls = self._block(st.body, [head])
-                finally:
-                    self._loops.pop()
-                ends = self._dedupe(falls + lf.continues)
+
+                def body(head: St, r: V = r) -> "tuple[list[St], _LoopFrame]":
+                    self.bind(st.target, r.item if r.item is not None else UNKNOWN, head)
+                    head.flag(*r.iflags)
+                    lf = _LoopFrame(st)
+                    self._loops.append(lf)
+                    try:
+                        falls = self._block(st.body, [head])
+                    finally:
+                        self._loops.pop()
+                    return self._dedupe(falls + lf.continues), lf
+
+                ends, lf = body(self._loop_head(st, s2, lambda h: body(h)[0]))
                 for x in ends:
                     self._end("iter-end", st, UNKNOWN, x)
                 exhausted = ([] if r.truthy is True and r.elts is not None else [s2]) + [self._next_round(x) for x in ends]
                 out += self._block(st.orelse, exhausted) + lf.breaks
             return out
         if isinstance(st, ast.While):
-            out = []
-            head = s.copy().kill(_stores(st))
-            lf = _LoopFrame()
-            ends: list[St] = []
-            for s2, r in self._forked(head, lambda x: self.ev(st.test, x)):
-                if isinstance(r, _Raise):
-                    self._route(r, s2)
-                    continue
-                if r.truthy is not False:
-                    a = self.refine(st.test, True, s2.copy())
-                    if a is not None:
-                        self._loops.append(lf)
-                        try:
-                            ends += self._block(st.body, [a])
-                        finally:
-                            self._loops.pop()
-            ends = self._dedupe(ends + lf.continues)
+            def rounds(head: St) -> "tuple[list[St], _LoopFrame]":
+                lf = _LoopFrame(st)
+                ends: list[St] = []
+                for s2, r in self._forked(head, lambda x: self.ev(st.test, x)):
+                    if isinstance(r, _Raise):
+                        self._route(r, s2)
+                        continue
+                    if r.truthy is not False:
+                        a = self.refine(st.test, True, s2.copy())
+                        if a is not None:
+                            self._loops.append(lf)
+                            try:
+                                ends += self._block(st.body, [a])
+                            finally:
+                                self._loops.pop()
+                return self._dedupe(ends + lf.continues), lf
+
+            ends, lf = rounds(self._loop_head(st, s, lambda h: rounds(h)[0]))
             for x in ends:
                 self._end("iter-end", st, UNKNOWN, x)
             exhausted: list[St] = []
@@ -682,6 +737,7 @@ class Walker:
         if isinstance(st, ast.Break):
             if self._loops:
                 self._loops[-1].breaks.append(s)
+                self._end("break", self._loops[-1].node, UNKNOWN, s)
             return []
         if isinstance(st, ast.Continue):
             if self._loops:
@@ -736,6 +792,32 @@ class Walker:
         if isinstance(st, (ast.Import, ast.ImportFrom)):
             return [s.kill(_stores(st))]
         return [s]          # pass, global, nonlocal
+
+    def _loop_head(self, st: ast.stmt, entry: St, one_round: "Callable[[St], list[St]]") -> St:
+        """A state that covers the head of every iteration.  First the body is walked on trial from the most general head (everything
+        the loop rebinds unknown); whatever a rebound name holds at the end of every such iteration and at the loop's entry alike, it
+        holds at every head (what the trial reports is discarded).  A name that is `None` before the loop and only ever set to `None`
+        in it stays `None`; provenance tags of an iteration do not survive, the entry has none."""
+        stored = _stores(st)
+        snap = (len(self.outcomes), [(fr, {k: len(v) for k, v in fr.explicit.items()}, len(fr.generic)) for fr in self._tries])
+        try:
+            ends = one_round(entry.copy().kill(stored))
+        finally:
+            del self.outcomes[snap[0]:]
+            for fr, exp, gen in snap[1]:
+                for k in list(fr.explicit):
+                    if k in exp:
+                        del fr.explicit[k][exp[k]:]
+                    else:
+                        del fr.explicit[k]
+                del fr.generic[gen:]
+        head = entry.copy()
+        for n in stored:
+            v = entry.env.get(n, UNKNOWN)
+            for x in ends:
+                v = join(v, x.env.get(n, UNKNOWN))
+            head.set(n, v)
+        return head
 
     def _next_round(self, s: St) -> St:
         """the state with which a loop goes on after one iteration: what concerns the finished iteration's item is forgotten"""
